@@ -9,35 +9,35 @@ PY = "/venv/bin/python -B -m vf.run"
 CHECKS = {
     "C01": dict(
         cat="exploration",
-        text="Post-condition oracle (pure-Python dict model over (name,dose)) on every Screen constructed from thousands of seeded hostile inputs, on re-constructions with a superset mapping batchie produced, and on rejection cases; thorough also observes every Screen built by the repo's own tests. Bijection claim over all inputs: exploration with an exact oracle is what runtime monitoring can give.",
+        text="Post-condition oracle (pure-Python dict model over (name,dose)) on every Screen constructed from thousands of seeded hostile inputs, on re-constructions with a superset mapping batchie produced (object and fixed-width name arrays), on re-constructions from refilled buffers (same array objects, changed content), and on rejection cases (uncovered rows, gaps, names that extend a listed name); thorough also observes every Screen built by the repo's own tests. Bijection claim over all inputs: exploration with an exact oracle is what runtime monitoring can give.",
         ref="4/C01",
         note="Trusts numpy/pandas string handling; NaN doses and NUL-containing names excluded; held only on the generated cases.",
         technique="runtime post-condition monitor on Screen.__init__ + reference encoder (dict model)",
     ),
     "C15": dict(
         cat="exploration",
-        text="Every index for n<=40 (quick) / n<=64 (thorough), k<=4 is unranked by the real function and re-ranked by an independent big-int rank (complete for that finite sub-space); boundary/uniform samples for n up to 5000; the real DBAL kernel's triples are intercepted and checked distinct/in-range/complete.",
+        text="Every index for n<=40 (quick) / n<=64 (thorough), k<=4 is unranked by the real function and re-ranked by an independent big-int rank (complete for that finite sub-space); boundary/uniform samples for n up to 5000; the real DBAL kernel's triples are intercepted and checked distinct/in-range/complete (also in the production regime n_thetas 60-300), and a counting run (identical samples, unit variances and distances) reads off the score how many triples were evaluated.",
         ref="4/C15",
         note="n>5000 and k>4 unexplored; rank oracle is the combinatorial number system identity.",
         technique="rank/unrank identity oracle + intercepted scorer calls",
     ),
     "C07": dict(
         cat="exploration",
-        text="Set-algebra oracle on the real chunk index function over the complete (n_thetas, n_chunks) grid for small n plus sampled n<=400; every chunk computed by the real function with a recording metric, saved, loaded and concatenated in random orders with repetition, compared byte-wise with the single-chunk matrix and with metric(pred_i,pred_j) recomputed by the harness; incomplete matrices must refuse to densify.",
+        text="Set-algebra oracle on the real chunk index function over the complete (n_thetas, n_chunks) grid for small n plus sampled n<=400; every chunk computed by the real function with a recording metric, saved, loaded and concatenated in random orders with repetition, compared byte-wise with the single-chunk matrix and with metric(pred_i,pred_j) recomputed by the harness; incomplete matrices must refuse to densify; inputs of concat must stay unchanged and concat must be repeatable; complete matrices of 129-300 samples go through save/load.",
         ref="4/C07",
         note="Assembly explored for n_thetas<=9; harness stub thetas with prescribed predictions and real sparse-combo samples; h5py trusted.",
         technique="reference set algebra + differential (single-chunk vs any assembly order) monitor on real h5 chunk files",
     ),
     "C16": dict(
         cat="exploration",
-        text="Exhaustive DFS over all selection histories (every allowed plate made best-scoring in turn through the real select_next_plate and policy) for every shape with <=3 samples x <=4 plates, k<=4, with and without observed plates; random walks with random scores (ties, -inf) on larger screens; the statement's clauses are evaluated at every recorded (batch, remaining) state.",
+        text="Exhaustive DFS over all selection histories (every allowed plate made best-scoring in turn through the real select_next_plate and policy) for every shape with <=3 samples x <=4 plates, k<=4, with and without observed plates; random walks with random scores (ties, -inf) on larger screens, half of them over several batches with the finished batch revealed in place on the same Screen object; the statement's clauses are evaluated at every recorded (batch, remaining) state.",
         ref="4/C16",
         note="Shapes beyond 3x4 (k>4) only by random walks up to 6 samples x 8 plates, k<=5.",
         technique="history enumeration through the real policy + clause checker on every reachable state",
     ),
     "C17": dict(
         cat="exploration",
-        text="A step-counting model whose exported state carries the step counter reads off the recorded steps for the complete (burn-in, thin, count) grid; the real SparseDrugCombo is run with counting wrappers; the generator handed to set_rng is captured per (seed, n_chains, chain) and compared by bit-generator state and first 4096 outputs; VI stub.",
+        text="A step-counting model whose exported state carries the step counter reads off the recorded steps for the complete (burn-in, thin, count) grid; the real SparseDrugCombo is run with counting wrappers; the generator handed to set_rng is captured per (seed, n_chains, chain) and compared by bit-generator state and first 4096 outputs; schedules up to 120000 steps; VI stub asked for up to 4097 samples.",
         ref="4/C17",
         note="Stream non-overlap decided on a 4096-output prefix; grid bounds b<=12/24, t<=5/7, n<=8/12.",
         technique="call-order trace monitor with unique step tags + generator-state comparison",
@@ -58,7 +58,7 @@ CHECKS = {
     ),
     "C12": dict(
         cat="exploration",
-        text="Operation histories (mask, unmask, reveal of fresh/observed/repeated/unknown id sets, save+load, reveal_plate and extract_screen_metadata CLIs in-process) replayed against a reference model (dict plate->bool + immutable row table keyed by unique observation tags): mask, rows, plate labels, value bits and JSON counters compared after every step; single-shot cases for constructor clauses, set_observed and zero/NaN refusals; thorough adds the repo test-suite under the per-plate uniformity invariant.",
+        text="Branching operation histories (mask, unmask, reveal of fresh/observed/repeated/unknown id sets, set_observed of a plate in place, save+load, reveal_plate and extract_screen_metadata CLIs in-process) replayed against a reference model (dict plate->bool + immutable row table keyed by unique observation tags): mask, rows, plate labels, value bits and JSON counters compared after every step, all earlier stages are re-checked for changes after every operation; single-shot cases for constructor clauses, set_observed and zero/NaN refusals; thorough adds the repo test-suite under the per-plate uniformity invariant.",
         ref="4/C12",
         note="Histories up to 15 operations; refusal of all-zero values judged only when every revealed plate is all zero.",
         technique="history + executable reference model; class invariant on Screen.__init__",
@@ -72,7 +72,7 @@ CHECKS = {
     ),
     "C11": dict(
         cat="exploration",
-        text="Multiset conservation (keyed by unique observation tags) checked after every shipped generator, smoother and hold-out run with random (also useless) parameters and fresh/advanced/shared generator states; observed part must pass through unchanged; hold-out must partition with the right per-plate counts; the input screen is hashed before and after every call.",
+        text="Multiset conservation (keyed by unique observation tags) checked after every shipped generator, smoother and hold-out run with random (also useless) parameters and fresh/advanced/shared generator states; observed part must pass through unchanged; hold-out must partition with the right per-plate counts; the input screen is hashed before and after every call; 15% of the operations follow an in-place reveal (set_observed) on the same Screen object; wells with the control in every column, arities 1 and 3, and screens of 1500-4500 rows are part of the workload.",
         ref="4/C11",
         note="Operations that raise are counted as did-not-return, not judged; three readings of ceil(fraction x size) accepted.",
         technique="post-condition monitor with identity-tagged rows (multiset conservation) + input-mutation hash",
@@ -86,35 +86,35 @@ CHECKS = {
     ),
     "C05": dict(
         cat="exploration",
-        text="Every plate score returned by the homoscedastic, heteroscedastic, vectorized and GaussianDBALScorer entry points (stub thetas with prescribed per-row means/variances and real samples) is compared at 1e-9(1+|ref|) with a scalar fsum evaluation of the documented estimator, and re-computed alone vs together, with shuffled experiments, shuffled plates, every max_chunk and relabelled thetas.",
+        text="Every plate score returned by the homoscedastic, heteroscedastic, vectorized and GaussianDBALScorer entry points (stub thetas with prescribed per-row means/variances and real samples) is compared at 1e-9(1+|ref|) with a scalar fsum evaluation of the documented estimator, and re-computed alone vs together, with shuffled experiments, shuffled plates, every max_chunk and relabelled thetas, and the same scorer object is called twice with the plates in another order.",
         ref="4/C05",
         note="n_thetas<=32 so all triples are enumerated; means bounded; reference is an independent loop implementation written from the statement.",
         technique="differential against a scalar reference + metamorphic monitors on the real kernel",
     ),
     "C06": dict(
         cat="exploration",
-        text="A recording Scorer logs the ids and row selections handed to it by the real score_chunk for every chunk index and returns prescribed scores (finite, -inf, ties); exactly-once coverage and batch conditioning are decided by set algebra; chunk files are saved, loaded and combined in random orders and the real select_next_plate (recording / real k-per-sample policy) is checked for minimality among allowed plates; both CLIs run in-process on the same files.",
+        text="A recording Scorer logs the ids and row selections handed to it by the real score_chunk for every chunk index and returns prescribed scores (finite, -inf, ties); exactly-once coverage and batch conditioning are decided by set algebra; chunk files are saved, loaded and combined in random orders and the real select_next_plate (recording / real k-per-sample policy) is checked for minimality among allowed plates; both CLIs run in-process on the same files; chunk jobs get the same seed / a seed per chunk / no generator / one shared generator; holders are queried before they are combined; one 110-140-plate screen per shard.",
         ref="4/C06",
         note="Batches are subsets of unobserved plates; NaN scores excluded; screens up to 10 plates.",
         technique="recording scorer/policy proxies + reference selection model over saved chunk files",
     ),
     "C09": dict(
         cat="exploration",
-        text="For random parameters of both sample types and screens of arity 1/2 with controls in any column: a scalar reference recomputes every mean from (sample, unordered non-control treatments); subsets, row permutations, column swaps and single-agent twins (rebuilt with the same mappings) must agree; viability/variance formulas checked; a purity monitor wrapped around every predict_* method hashes the sample and the screen before and after each call; stacked/averaged helpers compared with per-sample predictions.",
+        text="For random parameters of both sample types and screens of arity 1/2 with controls in any column: a scalar reference recomputes every mean from (sample, unordered non-control treatments); subsets, row permutations, column swaps and single-agent twins (rebuilt with the same mappings) must agree; viability/variance formulas checked; screens of 4095-9001 rows are compared with a vectorised reference; a purity monitor wrapped around every predict_* method hashes the sample and the screen before and after each call; stacked/averaged helpers compared with per-sample predictions.",
         ref="4/C09",
         note="Interaction sample type judged against its own documented link; tolerances 1e-12 relative to term magnitude.",
         technique="scalar reference + metamorphic monitors + before/after hash purity monitor on predict_*",
     ),
     "C10": dict(
         cat="exploration",
-        text="Holders of 1-25 samples per chain (both sample types, adversarial float64 parameters, unique tag per (chain, step)) are saved, loaded and compared bit for bit in order; concat is checked chain-major by tag identity; evaluate_model runs in-process with the chain files in random order and every prediction column / chain id is matched to the file position it came from; refusal clauses are exercised.",
+        text="Holders of 1-25 samples per chain (both sample types, adversarial float64 parameters, unique tag per (chain, step)) are saved, loaded and compared bit for bit in order; concat is checked chain-major by tag identity; evaluate_model runs in-process with the chain files in random order and every prediction column / chain id is matched to the file position it came from; inputs of concat must stay unchanged; samples are used for prediction before they are saved; chains of 100-300 samples; refusal clauses are exercised.",
         ref="4/C10",
         note="Value-preserving dtype widening on load accepted; h5py trusted.",
         technique="round-trip differential with identity tags + CLI column/chain alignment monitor",
     ),
     "C20": dict(
         cat="exploration",
-        text="Every listed metric (MSE, its variance over experiments, inter-chain variance, mean predictions, reload), single-agent effect maps/arrays (arity 2 and 3, repeated measurements), Bliss synergy (strict/lenient), calculate_mse, the full combinatoric space and the between-sample similarity matrix are recomputed by nested Python loops with math.fsum and compared.",
+        text="Every listed metric (MSE, its variance over experiments, inter-chain variance, mean predictions, reload), single-agent effect maps/arrays (arity 2 and 3, repeated and exactly-zero measurements), Bliss synergy (strict/lenient), ill-conditioned prediction matrices (large common offset), calculate_mse, the full combinatoric space and the between-sample similarity matrix are recomputed by nested Python loops with math.fsum and compared.",
         ref="4/C20",
         note="Degenerate correlation rows (0/0) skipped and counted; inputs up to 30 experiments x 12 samples.",
         technique="differential against loop-based reference implementations",
@@ -128,14 +128,14 @@ CHECKS = {
     ),
     "C04": dict(
         cat="exploration",
-        text="Non-interference decided on pairs of executions: two screens that differ only behind the mask (random, 0, 1, NaN, -1, 1e300) go through the real train -> distance chunks -> score chunks -> select path (both MCMC models, four scorers, chunk counts, batches, policy; thorough: the four CLI mains on files) with identical seeds and every artefact is compared byte-wise; a monitor on add_observations compares the sampler's training arrays with the documented row set and transform; refusal cases for masked rows, negative and NaN input.",
+        text="Non-interference decided on pairs of executions: two screens that differ only behind the mask (random, 0, 1, NaN, -1, 1e300) go through the real train -> distance chunks -> score chunks -> select path (both MCMC models, four scorers, chunk counts, batches, policy; thorough: the four CLI mains on files) with identical seeds and every artefact is compared byte-wise; a monitor on add_observations compares the sampler's training arrays with the documented row set and transform; refusal cases for masked rows, negative and NaN input; observations arriving in two batches with sampler steps in between are compared with a fresh model holding the same rows, numeric sampler state and generator.",
         ref="4/C04",
         note="Pairs are explored, not enumerated; the interaction model's transform is pinned to its current formula; observed 0/1 excluded for it.",
         technique="paired-execution differential (non-interference) monitor + training-set post-condition on add_observations",
     ),
     "C08": dict(
         cat="exploration",
-        text="Trace monitor on the real Gibbs sampler: every random draw of every block (generator proxy handed to set_rng, numpy.random.normal/gamma, the multivariate-normal helper in the model's namespace) is intercepted with the full sampler state before the draw; the element it updates is inferred from the state diff, and the draw's parameters (normal mean/sd, gamma shape/rate, Q and Q^-1 b) are compared with a float64 re-derivation of the full conditional from the parameters alone; fitted values, alpha, precision bounds, block order and the exported sample are checked after every block / step; sample_mvn_from_precision's affine map is reconstructed with an injected generator.",
+        text="Trace monitor on the real Gibbs sampler: every random draw of every block (generator proxy handed to set_rng, numpy.random.normal/gamma, the multivariate-normal helper in the model's namespace) is intercepted with the full sampler state before the draw; the element it updates is inferred from the state diff, and the draw's parameters (normal mean/sd, gamma shape/rate, Q and Q^-1 b) are compared with a float64 re-derivation of the full conditional from the parameters alone; fitted values, alpha, precision bounds, block order and the exported sample are checked after every block / step; histories include reset_model() between steps and observations added in two batches; sample_mvn_from_precision's affine map is reconstructed with an injected generator.",
         ref="4/C08",
         note="Decides the distribution of each update through the parameters of the draw (deterministic), not through sampled frequencies; float32 sampler state bounds the tolerances (worst deviation observed ~1e-5 posterior sd, threshold 2e-3); default model options; self-paired drugs and treatment-free spaces excluded.",
         technique="online trace monitor: intercepted draws checked against independently derived full conditionals",
